@@ -87,6 +87,7 @@ type Binding struct {
 	Ref      map[string][]byte // "v1" -> reference bytes
 	RefErr   map[string]string // stderr of the reference run
 	Trunc    map[string]int    // truncation point name -> byte offset (for v-independent classes: resolved per version)
+	Flaky    []string          // reference runs that did not agree with themselves
 	scratch  string
 	n        int
 }
@@ -101,6 +102,14 @@ func NewBinding(scratch string, tool *core.Tool, versions map[string]Input) *Bin
 		w := b.NewWorld()
 		w.materialise(State{Setup: name, OutD: "absent", OutC: "absent", LogD: "absent", LogC: "absent", Rest: "clean"})
 		res := tool.Run(core.RunOpts{Dir: filepath.Join(w.Root, pkgDir), Args: []string{"setup.go"}})
+		for attempt := 0; attempt < 4 && (res.Exit != 0 || res.TimedOut); attempt++ {
+			// identical runs that do not agree are a finding of their own (C13); remember it and try again
+			first := res
+			res = tool.Run(core.RunOpts{Dir: filepath.Join(w.Root, pkgDir), Args: []string{"setup.go"}})
+			if res.Exit == 0 && !res.TimedOut {
+				b.Flaky = append(b.Flaky, fmt.Sprintf("input %s: two identical runs on a pristine directory ended with exit %d (%s) and exit 0", in.Name, first.Exit, firstLines(first.Stderr, 1)))
+			}
+		}
 		if res.Exit != 0 || res.TimedOut {
 			core.Machinery("reference run of accepted input %q (%s) failed: exit %d: %s", name, in.Name, res.Exit, res.Stderr)
 		}
